@@ -25,8 +25,9 @@ META = {
     "level_note": "S4U API, one schedule per program. While the known finding C09:payload-rewritten-after-delivery is open, scenarios in "
                   "which senders keep put handles use the body of MessageQueue::get<T>() with the result slot on the heap instead of "
                   "get<T>() itself (whose slot is a local variable: the defect would write into dead stack frames and make everything "
-                  "after it meaningless); get<T>() itself is driven in the scenarios whose puts are all detached. get(timeout) is driven "
-                  "the same way (heap slot). MessageQueue::put(payload, timeout) is not generated (the statement does not say whether a "
+                  "after it meaningless); get<T>() itself is driven in the scenarios whose puts are all detached. get<T>(timeout) is driven "
+                  "through the real API in batches of its own (while its known findings are open, everything that follows a timeout in "
+                  "such a run is keyed ':after-timeout'). MessageQueue::put(payload, timeout) is not generated (the statement does not say whether a "
                   "timed-out put stays deliverable). A put arriving in the scheduling round in which a get(timeout) expires stops the replay "
                   "without verdict. Trusted base: the harness (payload registry, log order) and the python model.",
     "rule": "case = one scenario (per-actor scripts on 1-3 queues) on the platform of its batch; non-trivial = distinct scenarios whose "
@@ -47,10 +48,11 @@ def _d(name, scripts, nq=1):
 FINDINGS = [
     # payload written again by the sender's late wait() (MessImpl::finish() copies at every call)
     _d("rewritten-by-sender-wait", [["qputa:0", "sleep:1000", "wait:0"], ["qgets:0", "sleep:5000"]]),
-    # MessageQueue::get(timeout): the timed-out get stays in the queue and swallows the next put
-    _d("timed-out-get-swallows:lost", [["sleep:1500", "qputd:0"], ["qgetts:0:1000", "sleep:2000", "qgets:0"]]),
-    _d("timed-out-get-swallows:same-sender", [["sleep:1500", "qputd:0", "sleep:2000", "qputd:0"], ["qgetts:0:1000", "sleep:2000", "qgets:0"]]),
-    _d("timed-out-get-swallows:two-senders", [["sleep:1500", "qputd:0"], ["qgetts:0:1000", "sleep:2000", "qgets:0"], ["sleep:3500", "qputd:0"]]),
+    # MessageQueue::get(timeout): the timed-out get stays in the queue and swallows the next put, whose payload is written through a
+    # pointer to a local variable of a call that returned long ago (real API: what happens next is whatever a write into a dead
+    # stack frame gives; on this tree the process dies)
+    _d("timed-out-get-swallows:lost", [["sleep:1500", "qputd:0"], ["qgett:0:1000", "sleep:2000", "qget:0"]]),
+    _d("timed-out-get-swallows:same-sender", [["sleep:1500", "qputd:0", "sleep:2000", "qputd:0"], ["qgett:0:1000", "sleep:2000", "qget:0"]]),
     # MessImpl::wait_for registers the simcall twice: after a timeout the leftover wakes the actor up in an unrelated later simcall
     _d("spurious-wakeup-after-wait_for-timeout", [["sleep:2000", "qputd:0"], ["qgeta:0", "waitk:0:1000", "qgets:1", "sleep:10"]], nq=2),
     # Mess::wait_for() on a get that was not started does not wait
@@ -97,6 +99,13 @@ def run(ctx):
         if b == 0:
             ctx.sample({"plat": plat, "scenario": scs[0]})
             ctx.sample({"plat": plat, "scenario": scs[1]})
+        jobs.append(("hooks", plat, scs))
+        if b % 3 == 0:
+            jobs.append(("asan", plat, scs))
+    # the timeout family apart, in small batches (a crash costs the re-run of the rest of the batch)
+    for b in range(max(1, nb // 2)):
+        plat = G.platform(ctx.sub_rng("tplat", b))
+        scs = [G.gen_c09(ctx.sub_rng("tsc", b, i), plat, timeouts=True) for i in range(6)]
         jobs.append(("hooks", plat, scs))
         if b % 3 == 0:
             jobs.append(("asan", plat, scs))
